@@ -19,7 +19,8 @@ DEFAULT_ALLOW = [
     'github.com/openconfig/gnmi/proto/', 'github.com/openconfig/gnmi/client',
     'github.com/grpc-ecosystem/go-grpc-middleware/util/metautils',
     'google.golang.org/grpc/metadata', 'google.golang.org/grpc/status', 'google.golang.org/grpc/codes',
-    'google.golang.org/grpc/internal/status',
+    'google.golang.org/grpc/internal/status', 'github.com/atomix/atomix/api/errors',
+    'github.com/atomix/go-sdk/pkg/primitive',
 ]
 
 
